@@ -98,13 +98,11 @@ EXPORT int vscanf_s(const char *restrict fmt, va_list ap) {
     }
 
 #if defined(HAVE_STRSTR)
-    if (unlikely((p = strstr((char *)fmt, "%n")))) {
-        if ((p - fmt == 0) || *(p - 1) != '%') {
-            invoke_safe_str_constraint_handler("vscanf_s: illegal %n", NULL,
-                                               EINVAL);
-            errno = EINVAL;
-            return EOF;
-        }
+    if (unlikely((p = safec_fmt_find_n(fmt)) != NULL)) {
+        invoke_safe_str_constraint_handler("vscanf_s: illegal %n", NULL,
+                                           EINVAL);
+        errno = EINVAL;
+        return EOF;
     }
 #elif defined(HAVE_STRCHR)
     if (unlikely((p = strchr(fmt, flen, 'n')))) {
